@@ -27,6 +27,11 @@ ASSUMPTIONS = ["variants whose RefSeq position is not mapped in a build are igno
 COMP = {"A": "T", "C": "G", "G": "C", "T": "A"}
 
 
+_B = "TCAG"
+_AA = "FFLLSSSSYY**CC*WLLLLPPPPHHQQRRRRIIIMTTTTNNKKSSRRVVVVAAAADDEEGGGG"
+CODON = {a + b + c: _AA[16 * i + 4 * j + k] for i, a in enumerate(_B) for j, b in enumerate(_B) for k, c in enumerate(_B)}
+
+
 def rc(s):
     return "".join(COMP.get(c, c) for c in reversed(s))
 
@@ -234,6 +239,62 @@ def tie(ctx):
         why = oracle(gene, doc, entries)
         if why:
             violations.append({"why": why[0], "all": why[:6], "input": {"db": gd if gd["kind"] != "shipped" else gd}, "signature": "c08:" + why[0].split(":")[-1].strip()[:40]})
+    # ---- amino-acid effect inferred for a substitution that is not catalogued: a function of the RefSeq position and
+    # bases only, hence the same whichever build (strand, coordinates, region annotation) the database is loaded for
+    comp = {"A": "T", "C": "G", "G": "C", "T": "A"}
+    seen_pairs = set()
+    n_eff = 0
+    for gd in dbs:
+        key = gd.get("name") or gd.get("yaml")
+        if key in seen_pairs or gd["kind"] == "toy":
+            continue
+        seen_pairs.add(key)
+        try:
+            g19 = load_db({**gd, "genome": "hg19"})[1]
+            g38 = load_db({**gd, "genome": "hg38"})[1]
+        except Exception:
+            continue
+        coding = [q for s_, e_ in g19.exons for q in range(s_, e_) if q in g19.ref_to_chr and q in g38.ref_to_chr and g19.seq[q] in comp]
+        if not coding:
+            continue
+        for q in r.sample(coding, min(len(coding), 40 if quick else 200)) + [s_ for s_, e_ in g19.exons if s_ in coding][:6] + [e_ - 1 for s_, e_ in g19.exons if e_ - 1 in coding][:6]:
+            ref = g19.seq[q]
+            alt = r.choice([c for c in "ACGT" if c != ref])
+            eff = []
+            for g in (g19, g38):
+                op = f"{ref}>{alt}" if g.strand > 0 else f"{comp[ref]}>{comp[alt]}"
+                m = (g.ref_to_chr[q], op)
+                eff.append(None if m in g.mutations else ("x", g.get_functional(m)))
+            n_eff += 1
+            # independent translation (standard genetic code over the concatenated coding exons of the RefSeq record)
+            cds_ = "".join(g19.seq[s_:e_] for s_, e_ in g19.exons)
+            off_ = 0
+            for s_, e_ in g19.exons:
+                if s_ <= q < e_:
+                    off_ += q - s_
+                    break
+                off_ += e_ - s_
+            exp_ = None
+            if off_ < len(cds_) - len(cds_) % 3:
+                ci_ = off_ // 3
+                old_ = cds_[3 * ci_:3 * ci_ + 3]
+                new_ = old_[:off_ % 3] + alt + old_[off_ % 3 + 1:]
+                if all(c in "ACGT" for c in old_ + new_) and CODON[old_] != CODON[new_]:
+                    exp_ = (CODON[old_], ci_ + 1, CODON[new_])
+            for g, e_real in zip((g19, g38), eff):
+                if e_real is None:
+                    continue
+                got = e_real[1]
+                mm = re.fullmatch(r"(\D)(\d+)(\D)", got or "")
+                ok_ = (got is None) if exp_ is None else bool(mm and int(mm.group(2)) == exp_[1] and (exp_[0] == "*" or mm.group(1) == exp_[0]) and (exp_[2] == "*" or mm.group(3) == exp_[2]))
+                if not ok_:
+                    violations.append({"why": f"{g.name} {g.genome}: effect inferred for the uncatalogued substitution RefSeq {q + 1}{ref}>{alt} is {got!r}, the coding sequence gives "
+                                              f"{None if exp_ is None else exp_[0] + str(exp_[1]) + exp_[2]!r}", "input": {"db": gd}, "signature": "c08:inferred_effect_wrong"})
+                    break
+            if eff[0] is not None and eff[1] is not None and eff[0] != eff[1]:
+                violations.append({"why": f"{g19.name}: the effect inferred for RefSeq {q + 1}{ref}>{alt} is {eff[0][1]!r} when the database is loaded for hg19 and {eff[1][1]!r} for hg38",
+                                   "input": {"db": gd}, "signature": "c08:inferred_effect_depends_on_build"})
+                break
     outs = lib.driver_batch(reqs)
     fam = {"coords": {"cases": 0, "disagreements": []}}
     stats = collections.Counter()
